@@ -149,17 +149,17 @@ Local Open Scope N_scope.
 Local Open Scope string_scope.
 Definition rc_client : client :=
   mkClient 1 false [GAuthorizationCode; GRefreshToken; GCiba] ["code"] ["https://c1.example/cb"]
-           "openid email" CibaPoll false false false false false false false 0 false.
+           "openid email" CibaPoll false false false false false false false 0 false None.
 Definition rc_opts (rotation : bool) : list opt :=
   [WithScopes [ScExact "openid"; ScExact "email"]; WithAuthorizationCodeGrant;
    WithRefreshTokenGrantPol IssueCodeOnly 600%Z] ++ (if rotation then [WithRefreshTokenRotation] else []) ++
   [WithPAR 60%Z; WithCIBAGrant; WithTokenLifetime 300%Z].
 Definition rc_params : params :=
-  mkParams 0 "https://c1.example/cb" "" "code" "openid email" "st" "" PkEmpty "" 0 "" 0 "" [].
+  mkParams 0 "https://c1.example/cb" "" "code" "openid email" "st" "" PkEmpty "" 0 "" 0 "" [] None.
 Definition rc_cred : cred := mkCred 1 true.
 Definition rc_treq (code refresh auth_req : id) : treq :=
-  mkTReq rc_cred no_bind "" code (if is_nil code then "" else "https://c1.example/cb") refresh PkEmpty auth_req HgOk BaApprove [] AsNone.
-Definition rc_authorize : op := OpAuthorize (mkAReq 1 rc_params true (PolSuccess "alice" "openid email" [])).
+  mkTReq rc_cred no_bind "" code (if is_nil code then "" else "https://c1.example/cb") refresh PkEmpty auth_req HgOk BaApprove [] AsNone None.
+Definition rc_authorize : op := OpAuthorize (mkAReq 1 rc_params true (PolSuccess "alice" "openid email" [] [])).
 
 (* authorization code: AByCode ... ADel *)
 Definition scn_code (rotation : bool) : racescn :=
@@ -175,7 +175,7 @@ Definition scn_refresh (rotation : bool) : racescn :=
 Definition scn_par (rotation : bool) : racescn :=
   mkRaceScn POpenID (rc_opts rotation) [] [rc_client]
     [OpPar (mkPReq rc_cred rc_params no_bind)]
-    (OpAuthorize (mkAReq 1 (rc_params <| p_request_uri := mint 0%nat KParUri |>) true (PolSuccess "alice" "openid email" [])))
+    (OpAuthorize (mkAReq 1 (rc_params <| p_request_uri := mint 0%nat KParUri |>) true (PolSuccess "alice" "openid email" [] [])))
     KAGet KASave.
 (* the same with a policy that shows a login page instead of finishing at once *)
 Definition scn_par_page (rotation : bool) : racescn :=
@@ -186,5 +186,5 @@ Definition scn_par_page (rotation : bool) : racescn :=
 (* CIBA auth_req_id (poll mode): AByCiba ... ADel *)
 Definition scn_ciba (rotation : bool) : racescn :=
   mkRaceScn POpenID (rc_opts rotation) [] [rc_client]
-    [OpBcAuthorize (mkBReq rc_cred (mkParams 0 "" "" "" "openid email" "" "" PkEmpty "" 0 "alice" 0 "" []) no_bind true "alice" "openid email" [])]
+    [OpBcAuthorize (mkBReq rc_cred (mkParams 0 "" "" "" "openid email" "" "" PkEmpty "" 0 "alice" 0 "" [] None) no_bind true "alice" "openid email" [] [])]
     (OpToken GCiba (rc_treq 0 0 (mint 0%nat KAuthReq))) KAGet KADel.
